@@ -304,18 +304,26 @@ def runCase (payload : String) : String :=
           | .many vs => "l[" ++ ",".intercalate (zipM maskRes vs) ++ "]"
         let nt := if reached.isSome then "\tnt=1" else ""
         let opaqueV := bodyS = "opaque"
-        let res :=
+        -- `tr` is applied to what Run returned before it is printed: `id` = the code as it is (model);
+        -- `demandedResult` = what the property demands of nested results (known finding nested-result-numbers)
+        let line := fun (tr : Ret → Ret) =>
           if mode = "D" then
             match out with
             | .escaped => "X"
-            | .done r none => "V " ++ (if opaqueV then "?" else showRet r) ++ " " ++ recv
+            | .done r none => "V " ++ (if opaqueV then "?" else showRet (tr r)) ++ " " ++ recv
             | .done _ (some (.func _)) => "E f " ++ recv
             | .done _ (some _) => "E b " ++ recv
           else
             match executeFunction true errKind out with
             | .crash => "X"
-            | .value r => "V " ++ (if opaqueV then "?" else showRet r) ++ " " ++ recv
+            | .value r => "V " ++ (if opaqueV then "?" else showRet (tr r)) ++ " " ++ recv
             | .runtimeError => (if mode = "T" then "C " else "E ") ++ recv
+        let demand : Ret → Ret := fun r => match r with
+          | .one v => .one (demandedResult .iface v)
+          | .many vs => .many (vs.map (demandedResult .iface))
+        let res := line id
+        let spec := line demand
+        let res := if spec = res then res else res ++ "\tkf=nested-result-numbers\tspec=" ++ spec
         res ++ nt
     | _, _ => "bad-payload"
   | _ => "bad-payload"
